@@ -17,6 +17,7 @@ const (
 	vpSecDone
 	vpSFCleanup
 	vpWaitAfterSend
+	vpSecWritten
 )
 
 func verifPoint(id int) {}
